@@ -144,6 +144,10 @@ type expected struct {
 	// slash) but the location holds a non-directory; whether that "exists"
 	// is not specified, so reporting it or not are both accepted.
 	Lenient bool
+	// Volatile: the file is rewritten in place while it is uploaded; the
+	// upload may fail (then the output is not reported), and if it is
+	// reported the digest must still describe the bytes stored for it.
+	Volatile bool
 }
 
 func expectedAt(root *node, loc []string, declared string) expected {
@@ -169,6 +173,9 @@ func expectedAt(root *node, loc []string, declared string) expected {
 	}
 	if e.Kind != "dir" && mustBeDirectory(declared) {
 		e.Lenient = true
+	}
+	if n.volatile {
+		e.Volatile = true // rewritten while being uploaded: the upload may fail
 	}
 	return e
 }
@@ -389,7 +396,7 @@ func checkTree(cas *fakeCAS, od *remoteexecution.OutputDirectory, want *node, re
 			if w == nil || w.kind != kFile {
 				return fmt.Errorf("%s: Tree lists file %q, model has %s", where, f.Name, describe(w))
 			}
-			if err := checkFileDigest(cas, f.Digest, w.data); err != nil {
+			if err := checkFileDigest(cas, f.Digest, w.data, w.alts()...); err != nil {
 				return fmt.Errorf("%s/%s: %v", where, f.Name, err)
 			}
 			if f.IsExecutable != w.exec {
@@ -425,6 +432,9 @@ func checkTree(cas *fakeCAS, od *remoteexecution.OutputDirectory, want *node, re
 			if want.children[name].kind == kSpecial {
 				continue
 			}
+			if want.children[name].volatile {
+				continue // rewritten while being uploaded: the upload may fail, the file is then left out
+			}
 			if _, ok := seen[name]; !ok {
 				return fmt.Errorf("%s: model has %s %q, Tree does not list it", where, want.children[name].kind, name)
 			}
@@ -456,6 +466,33 @@ func checkTree(cas *fakeCAS, od *remoteexecution.OutputDirectory, want *node, re
 	return nil
 }
 
+// alts lists the other contents a file may legitimately be stored with.
+func (n *node) alts() []string {
+	if n != nil && n.volatile {
+		return []string{n.alt}
+	}
+	return nil
+}
+
+// volatilePaths lists the files (path below n -> replacement contents)
+// that are rewritten during upload.
+func volatilePaths(n *node) map[string]string {
+	out := map[string]string{}
+	var rec func(prefix string, d *node)
+	rec = func(prefix string, d *node) {
+		for _, name := range d.sortedNames() {
+			c := d.children[name]
+			if c.kind == kDir {
+				rec(prefix+name+"/", c)
+			} else if c.kind == kFile && c.volatile {
+				out[prefix+name] = c.alt
+			}
+		}
+	}
+	rec("", n)
+	return out
+}
+
 func describe(n *node) string {
 	if n == nil {
 		return "nothing"
@@ -463,7 +500,7 @@ func describe(n *node) string {
 	return "a " + n.kind.String()
 }
 
-func checkFileDigest(cas *fakeCAS, d *remoteexecution.Digest, want string) error {
+func checkFileDigest(cas *fakeCAS, d *remoteexecution.Digest, want string, alternatives ...string) error {
 	if d == nil {
 		return fmt.Errorf("no digest")
 	}
@@ -473,6 +510,11 @@ func checkFileDigest(cas *fakeCAS, d *remoteexecution.Digest, want string) error
 	}
 	if sha256Hex(stored) != d.Hash || int64(len(stored)) != d.SizeBytes {
 		return fmt.Errorf("digest %s/%d does not match the %d bytes stored in the CAS", d.Hash, d.SizeBytes, len(stored))
+	}
+	for _, a := range alternatives {
+		if string(stored) == a {
+			return nil
+		}
 	}
 	if string(stored) != want {
 		return fmt.Errorf("stored contents %q differ from the file contents %q", truncate(string(stored)), truncate(want))
@@ -546,7 +588,7 @@ func checkActionResult(cas *fakeCAS, ar *remoteexecution.ActionResult, root *nod
 			continue
 		}
 		if len(rs) == 0 {
-			if e.Lenient {
+			if e.Lenient || e.Volatile {
 				continue
 			}
 			return fmt.Errorf("path %q: model has a %s at %q, ActionResult does not report it", p, e.Kind, strings.Join(locOf[p], "/"))
@@ -557,7 +599,7 @@ func checkActionResult(cas *fakeCAS, ar *remoteexecution.ActionResult, root *nod
 			}
 			switch r.kind {
 			case "file":
-				if err := checkFileDigest(cas, r.file.Digest, e.Data); err != nil {
+				if err := checkFileDigest(cas, r.file.Digest, e.Data, e.Node.alts()...); err != nil {
 					return fmt.Errorf("output file %q: %v", p, err)
 				}
 				if r.file.IsExecutable != e.Exec {
